@@ -69,8 +69,52 @@ TERMS_BASIC = [('A', '"a"'), ('B', '"b"')]
 TERMS_DYN = [('A', '"a"'), ('AA', '"aa"'), ('B', '"b"'), ('AB', '"ab"'), ('AP', '/a+/')]
 
 
+def gen_split_grammar(rng, lexer):
+    """sequences of 2-4 small non-terminals over one letter: the split points are ambiguous, which gives ambiguous
+    intermediate nodes (also nested ones for 4 symbols), ambiguous _inlined symbols and ?rules returning _ambig"""
+    pool = ['x', '?q', '_i', '!k', 'y']
+    rng.shuffle(pool)
+    names = pool[:rng.randint(1, 3)]
+    bare = [n.lstrip('?!') for n in names]
+    if lexer == 'basic':
+        terms = [('A', '"a"'), ('B', '"b"')]
+        atoms = ['A', 'A A', '"a"', 'A "a"', 'A?', '[A]', 'A B?', 'A A A', '"a" A', 'A [B]']
+    else:
+        terms = [('A', '"a"'), ('B', '"b"'), ('AA', '"aa"'), ('AP', '/a+/')]
+        atoms = ['A', 'A A', '"a"', 'A "a"', 'A?', '[A]', 'AA', 'AP', 'A B?', '"aa"', 'AA A', 'A AP']
+    lines = []
+    alts = []
+    for _ in range(rng.randint(1, 2)):
+        seq = [rng.choice(bare) for _ in range(rng.randint(2, 4))]
+        if rng.random() < 0.3:
+            seq.insert(rng.randrange(len(seq) + 1), rng.choice(['A', '"a"', 'B', '[B]']))
+        alt = ' '.join(seq)
+        if rng.random() < 0.15:
+            alt += ' -> al0'
+        if alt not in alts:
+            alts.append(alt)
+    lines.append('start: ' + '\n  | '.join(alts))
+    for n, b in zip(names, bare):
+        k = rng.randint(2, 3)
+        al = rng.sample(atoms, k)
+        if rng.random() < 0.2:
+            other = [x for x in bare if x > b]          # only "later" names: no derivation cycle
+            if other:
+                al.append(rng.choice(other) + ' ' + rng.choice(['A', '"a"', '']))
+        if rng.random() < 0.15 and not n.startswith('_'):
+            al[0] += ' -> al1'
+        lines.append('%s: %s' % (n, '\n  | '.join(al)))
+    for t, pat in terms:
+        lines.append('%s: %s' % (t, pat))
+    return '\n'.join(lines) + '\n'
+
+
 def gen_grammar(rng, lexer, cyclic):
     """returns grammar text. Rule names: start, x, y, ?q, _i, !k ; terminals by lexer."""
+    if not cyclic and rng.random() < 0.45:
+        return gen_split_grammar(rng, lexer)
+    dense = rng.random() < 0.3     # many non-terminals per alternative over few terminals: split ambiguity,
+    #                                nested intermediate-node ambiguity (_iambig inside _iambig)
     names = ['start']
     pool = ['x', 'y', '?q', '_i', '!k', 'z']
     rng.shuffle(pool)
@@ -85,10 +129,14 @@ def gen_grammar(rng, lexer, cyclic):
     for idx, n in enumerate(names):
         alts = []
         for _ in range(rng.randint(1, 3)):
-            k = rng.choice([1, 1, 2, 2, 2, 3, 3, 4])
+            k = rng.choice([2, 3, 3, 4, 4]) if dense else rng.choice([1, 1, 2, 2, 2, 3, 3, 4])
             items = []
             for _ in range(k):
                 r = rng.random()
+                if dense and idx > 0:
+                    r = 0.5 + r / 2       # leaves of a dense grammar are mostly terminals
+                elif dense:
+                    r = r * 0.6
                 if r < 0.42:
                     # non-terminal; to stay acyclic refer only to later rules, plus guarded self/earlier references
                     if cyclic:
@@ -290,6 +338,31 @@ def has_shared_ambig(t):
                         return True
                 stack.append(c)
     return False
+
+
+def forest_features(f):
+    """(has an ambiguous intermediate node, has one nested in the left spine of another, has an ambiguous _inlined symbol)"""
+    feats = [False, False, False]
+
+    def go(n):
+        if n[0] == 'tok':
+            return
+        _, label, fams = n
+        if len(fams) > 1:
+            if label[0] == 'I':
+                feats[0] = True
+                for (_, left, _) in fams:
+                    if left is not None and left[0] == 'sym' and len(left[2]) > 1:
+                        feats[1] = True
+            elif label[1].startswith('_'):
+                feats[2] = True
+        for (_, left, right) in fams:
+            if left is not None:
+                go(left)
+            if right is not None:
+                go(right)
+    go(f)
+    return tuple(feats)
 
 
 def export_tree(t):
@@ -951,6 +1024,13 @@ def observe_collapse(tree):
     return [export_tree(t) for t in res]
 
 
+def hist(ctx, **kw):
+    """histogram entries that are not evaluations of their own"""
+    for k, v in kw.items():
+        h = ctx.histo.setdefault(k, {})
+        h[str(v)] = h.get(str(v), 0) + 1
+
+
 def witness(grammar, lexer, text, opts):
     return {'grammar': grammar, 'lexer': lexer, 'text': text, 'options': opts}
 
@@ -1007,6 +1087,7 @@ def run_stream(ctx, stream, ngrammars, cyclic_wanted, maxlen, cases, meta, defs,
         alphabet = 'ab'
         inputs = list(all_inputs(alphabet, maxlen))
         inputs += [''.join(rng.choice(alphabet) for _ in range(rng.randint(maxlen + 1, maxlen + 2))) for _ in range(3)]
+        inputs += ['a' * k for k in range(maxlen + 1, maxlen + 4)] + ['a' * rng.randint(2, 5) + 'b', 'b' + 'a' * rng.randint(2, 5)]
         for text in inputs:
             obs = run_case(g, lexer, text, parser=parser)
             verdict = property_verdict(parser, lexer, text, obs, cyclic, mp=opts['maybe_placeholders'])
@@ -1021,7 +1102,7 @@ def run_stream(ctx, stream, ngrammars, cyclic_wanted, maxlen, cases, meta, defs,
                 ga = export_graph_case(obs['root'], parser, lexer, text, 'a%s%d_%d' % (stream[0], made, len(acases[0])), gf)
                 if gf is not None:
                     msg = added_vs_forest(parser, lexer, text, gf, obs['root'])
-                    ctx.count('added-vs-forest', key=(g, lexer, text), nontrivial=len(gf) > 3)
+                    hist(ctx, added_vs_forest_families=min(40, 10 * (len(gf) // 10)))
                     if msg:
                         # the forest differs from the specification: a failing input of the property itself is one where the
                         # tree set differs (reported by the oracle above); otherwise report the broken tie
@@ -1038,7 +1119,7 @@ def run_stream(ctx, stream, ngrammars, cyclic_wanted, maxlen, cases, meta, defs,
             try:
                 forest = export_forest(obs['root'])
             except (TooBig, Cyclic):
-                ctx.count(stream + ':forest-not-exported', nontrivial=False)
+                hist(ctx, forest_not_unfolded=stream)
                 continue
             if tree_size(obs['tree']) > 3 * MAX_NODES:
                 continue
@@ -1049,9 +1130,11 @@ def run_stream(ctx, stream, ngrammars, cyclic_wanted, maxlen, cases, meta, defs,
                 if msg:
                     ctx.violation('property-oracle:collapse', dict(witness(g, lexer, text, opts), collapse=True), True, msg)
                     verdict = verdict or ('collapse', msg)
+            ff = forest_features(forest)
+            hist(ctx, iambig=ff[0], nested_iambig=ff[1], ambiguous_inlined=ff[2])
             strict = not has_shared_ambig(obs['lark_tree'])
             if not strict:
-                ctx.count(stream + ':shared-ambig-object(compared modulo nested _ambig)', nontrivial=False)
+                hist(ctx, shared_ambig_object_compared_modulo_flattening=stream)
             cases.append(coq_case(forest, obs['tree'], cobs, rt, strict))
             meta.append((g, lexer, text, opts, verdict))
             if amb:
